@@ -2343,6 +2343,8 @@ func (tc *typechecker) checkDefault(expr *ast.Default, show bool) typeInfoPair {
 						Properties: propertyUntyped,
 					}
 				}
+			} else {
+				tis[0] = tc.checkIdentifier(n, true)
 			}
 		}
 
